@@ -10,6 +10,13 @@ for pid in props:
     m=meta['properties'].get(pid,{})
     if os.path.exists(up) and not m.get('not_applicable'):
         u=json.load(open(up))
+        hs=u.get('harnesses',[])
+        q=[h for h in hs if h.get('tier','quick')=='quick']; t=[h for h in hs if h.get('tier','quick')!='quick']
+        comp=lambda l: sum(1 for h in l if h['kind'] in ('total','contract'))
+        tiers=(f" Quick tier: {len(q)} Kani obligations ({comp(q)} complete, {len(q)-comp(q)} bounded, bounds in the evidence file)"
+               f" and {len(u.get('verus',[]))} Verus lemma file(s); the thorough tier adds {len(t)} obligations ({comp(t)} complete) that need more than the quick tier's 15 minutes or 10 GB.")
+        note='; '.join(u.get('assumptions',[]))
+        if u.get('not_decided'): note+=' || NOT DECIDED: '+'; '.join(u['not_decided'])
         checks.append({
           "property_id":pid,
           "quick_cmd":f"./check {pid} --tier quick",
@@ -17,8 +24,8 @@ for pid in props:
           "evidence_file":f"/verif/evidence/{pid}.json",
           "replay_cmd_template":f"./check {pid} --replay {{path}}",
           "engine":"kani-contracts+verus-lemmas",
-          "level_claimed":{"category":u.get('level','other'),"text":m.get('level_text',u.get('explanation','')),"design_ref":m.get('design_ref','DESIGN.md section 5')},
-          "level_note":m.get('level_note','; '.join(u.get('assumptions',[]))),
+          "level_claimed":{"category":u.get('level','other'),"text":m.get('level_text',u.get('explanation',''))+tiers,"design_ref":m.get('design_ref','DESIGN.md section 5')},
+          "level_note":m.get('level_note',note),
           "technique":m.get('technique',"contract-based deductive verification: Kani function contracts / full-domain harnesses on the real code (CBMC), Verus lemmas over the step specifications"),
         })
     else:
